@@ -37,11 +37,11 @@ package keystore
 //@   loop #2 invariant address-carries-its-index: forall j int :: 0 <= j && j < len(addressInfo) ==> addressInfo[j] != nil && addressInfo[j].managedAddr != nil && addressInfo[j].managedAddr.derivationPath.Index == addressInfo[j].index && addressInfo[j].branch == branch
 //@   loop #3 invariant issued-indices-below-the-counter: forall j int :: 0 <= j && j < len(addressInfo) ==> addressInfo[j] != nil && lastresult("getChildNum") <= addressInfo[j].index && addressInfo[j].index < nextIndex
 //@   loop #3 invariant address-carries-its-index: forall j int :: 0 <= j && j < len(addressInfo) ==> addressInfo[j] != nil && addressInfo[j].managedAddr != nil && addressInfo[j].managedAddr.derivationPath.Index == addressInfo[j].index && addressInfo[j].branch == branch
-//@   loop #3 invariant returned-list-follows-the-issued-list: -1 <= #rangeindex && #rangeindex < len(addressInfo) && len(managedAddresses) == #rangeindex + 1 && len(addressInfo) == numAddresses && (forall j int :: 0 <= j && j < len(managedAddresses) ==> managedAddresses[j] == addressInfo[j].managedAddr)
+//@   loop #3 invariant returned-list-follows-the-issued-list: 0 <= #iter && #iter <= len(addressInfo) && len(managedAddresses) == #iter && len(addressInfo) == numAddresses && (forall j int :: 0 <= j && j < len(managedAddresses) ==> managedAddresses[j] == addressInfo[j].managedAddr)
 //@   loop #4 invariant issued-indices-below-the-counter: forall j int :: 0 <= j && j < len(addressInfo) ==> addressInfo[j] != nil && lastresult("getChildNum") <= addressInfo[j].index && addressInfo[j].index < nextIndex
 //@   loop #4 invariant address-carries-its-index: forall j int :: 0 <= j && j < len(addressInfo) ==> addressInfo[j] != nil && addressInfo[j].managedAddr != nil && addressInfo[j].managedAddr.derivationPath.Index == addressInfo[j].index && addressInfo[j].branch == branch
 //@   loop #4 invariant returned-list-follows-the-issued-list: len(managedAddresses) == numAddresses && len(addressInfo) == numAddresses && (forall j int :: 0 <= j && j < len(managedAddresses) ==> managedAddresses[j] == addressInfo[j].managedAddr)
-//@   assert-at call putEncryptedPubKey public-key-stored-under-its-branch-and-index: arg1 == addressInfo[#rangeindex + 1].branch && arg2 == addressInfo[#rangeindex + 1].index && arg3 == lastresult("Encrypt")
+//@   assert-at call putEncryptedPubKey public-key-stored-under-its-branch-and-index: arg1 == addressInfo[#iter].branch && arg2 == addressInfo[#iter].index && arg3 == lastresult("Encrypt")
 //@   assert-at return#-1 as-many-keys-as-asked-each-at-a-fresh-index-below-the-stored-counter: len(managedAddresses) == numAddresses && (forall j int :: 0 <= j && j < len(managedAddresses) ==> managedAddresses[j] != nil && lastresult("getChildNum") <= managedAddresses[j].derivationPath.Index && managedAddresses[j].derivationPath.Index < nextIndex)
 
 //@ func newManagedAddressWithoutPrivKey
@@ -57,7 +57,7 @@ package keystore
 //@   ensures as-many-as-asked: err == nil ==> len(result0) == numAddresses && (forall j int :: 0 <= j && j < len(result0) ==> result0[j] != nil)
 
 //@ func (*AddrManager).updateManagedAddress
-//@   loop * invariant registered-so-far: -1 <= #rangeindex && #rangeindex < len(managedAddresses) && (forall j int :: 0 <= j && j <= #rangeindex ==> has(a.addrs, managedAddresses[j].address))
+//@   loop * invariant registered-so-far: 0 <= #iter && #iter <= len(managedAddresses) && (forall j int :: 0 <= j && j < #iter ==> has(a.addrs, managedAddresses[j].address))
 //@   assert-at call fetchChildNum counters-refreshed-from-this-keystore-bucket: arg0 == lastresult("FetchBucket")
 
 //@ func (*KeystoreManagerForPoC).GenerateNewPublicKey$1
